@@ -136,3 +136,109 @@ N("gen-n-and-chain", G, """        elif (this.op, that.op) == ("==", "in"):
                 return this
             return EmptySpecifier()""", """        elif this.op == "==" and that.op == "in":
             return this if this.value in that.value else EmptySpecifier()""", props=["C19"])
+
+# ---------------------------------------------------------------- markers: C02 / C07 / C12 / C15
+SG = "markers/single.py"
+MU_ = "markers/multi.py"
+UN = "markers/union.py"
+UT = "utils.py"
+M("m-eq-and-filter", SG, "new_values = OrderedSet([v for v in self.values if v in other.specifier])", "new_values = OrderedSet([v for v in self.values if v not in other.specifier])", fire=["C02"])
+M("m-ineq-or-notin", SG, "[v for v in self.values if v not in other.specifier]", "[v for v in self.values if v in other.specifier]", fire=["C02"])
+M("m-ineq-and-eq", SG, """                if other.value in self.values:
+                    return EmptyMarker()
+                return other""", """                if other.value in self.values:
+                    return other
+                return other""", fire=["C02"])
+M("m-ineq-replace-op", SG, 'return MarkerExpression(self.name, "!=", values.peek())', 'return MarkerExpression(self.name, "==", values.peek())', fire=["C02"])
+M("m-merge-class-swap", SG, """        if merge_class is MultiMarker:
+            result_specifier = marker1.specifier & marker2.specifier
+        else:
+            result_specifier = marker1.specifier | marker2.specifier""", """        if merge_class is MultiMarker:
+            result_specifier = marker1.specifier | marker2.specifier
+        else:
+            result_specifier = marker1.specifier & marker2.specifier""", fire=["C02"])
+M("m-extra-merge", SG, """        if marker1.value != marker2.value:  # type: ignore[attr-defined]
+            return None""", """        if marker1.value != marker2.value:  # type: ignore[attr-defined]
+            pass""", fire=["C02"])
+M("m-g2-reintroduced", SG, """                if other.value in self.values:
+                    return AnyMarker()
+                return other""", """                if other.value in self.values:
+                    AnyMarker()
+                return other""", fire=["C02"])
+M("m-only-not", SG, "if self.name not in marker_names:", "if self.name in marker_names:", fire=["C12"])
+M("m-exclude-eq", SG, """        if self.name == marker_name:
+            return AnyMarker()""", """        if self.name != marker_name:
+            return AnyMarker()""", fire=["C12"])
+M("m-multi-only-skip", MU_, "return self.of(*(m.only(*marker_names) for m in self.markers))", "return self.of(*(m.only(*marker_names) for m in self.markers[1:]))", fire=["C12"])
+M("m-union-only-names", UN, "return self.of(*(m.only(*marker_names) for m in self.markers))", "return self.of(*(m.only(*marker_names[:1]) for m in self.markers))", fire=["C12"])
+M("m-multi-exclude-noskip", MU_, """            if isinstance(m, SingleMarker) and m.name == marker_name:
+                # The marker is not relevant since it must be excluded
+                continue
+
+            marker = m.exclude(marker_name)
+
+            if not marker.is_empty():""", """            marker = m
+
+            if not marker.is_empty():""", fire=["C12"])
+M("m-str-paren", MU_, "if isinstance(m, (MarkerExpression, MultiMarker)):", "if isinstance(m, (MarkerExpression, MultiMarker, BaseMarker)):", fire=["C07"])
+M("m-str-eqjoin", SG, """return " or ".join(f'{self.name} == "{value}"' for value in self.values)""", """return " and ".join(f'{self.name} == "{value}"' for value in self.values)""", fire=["C07"])
+M("m-str-reversed-op", SG, """return f'"{self.value}" {get_reflect_op(self.op)} {self.name}'""", """return f'"{self.value}" {self.op} {self.name}'""", fire=["C07"])
+M("m-str-union-join", UN, 'return " or ".join(str(m) for m in self.markers)', 'return " and ".join(str(m) for m in self.markers)', fire=["C07"])
+M("m-of-isany-swap", MU_, """                if marker.is_any():
+                    continue""", """                if marker.is_empty():
+                    continue""", fire=["C02", "C15"])  # C02 through the polarity rule R02.3
+M("m-of-return-any", UN, """                        if new_marker.is_any():
+                            return AnyMarker()""", """                        if new_marker.is_any():
+                            return EmptyMarker()""", fire=["C02", "C15"])
+M("m-of-single-exit", MU_, """        if len(new_markers) == 1:
+            return new_markers[0]
+
+        return MultiMarker(*new_markers)""", """        return MultiMarker(*new_markers)""", fire=["C15"])
+M("m-union-simplify-subset", MU_, """            if our_markers.issubset(their_markers):
+                return self""", """            if our_markers.issubset(their_markers):
+                return other""", fire=["C02"])
+M("m-intersect-simplify-subset", UN, """            if our_markers.issubset(their_markers):
+                return self""", """            if our_markers.issubset(their_markers):
+                return other""", fire=["C02"])
+M("m-cnf-of-swap", UT, """        return MultiMarker.of(
+            *[MarkerUnion.of(*c) for c in itertools.product(*sub_marker_lists)]
+        )""", """        return MarkerUnion.of(
+            *[MultiMarker.of(*c) for c in itertools.product(*sub_marker_lists)]
+        )""", fire=["C02"])
+M("m-normalize-gt", SG, """        splitted[-1] = str(int(splitted[-1]) + 1)
+        op = ">="
+""", """        op = ">="
+""", fire=["C02"])
+M("m-get-specifier-glue", SG, """op, glue = ("==", "||") if self.op == "in" else ("!=", ",")""", """op, glue = ("==", ",") if self.op == "in" else ("!=", "||")""", fire=["C02"])
+M("m-flatten-class", MU_, """object.__setattr__(self, "markers", tuple(flatten_items(markers, MultiMarker)))""", """object.__setattr__(self, "markers", tuple(flatten_items(markers, BaseMarker)))""", fire=["C15"])
+M("m-evaluate-rev-oper", SG, """            op = get_reflect_op(self.op)
+        else:""", """            op = self.op
+        else:""", fire=["C02"])
+M("m-multi-and-merge-op", MU_, "new_marker = mark & marker", "new_marker = mark | marker", fire=["C02", "C15"])
+N("m-n-of-ifelse", MU_, """                if marker.is_any():
+                    continue
+
+                intersected = False""", """                if marker.is_any():
+                    pass
+                else:
+                  if True:
+                    pass
+                if marker.is_any():
+                    continue
+
+                intersected = False""", props=["C02", "C15"])
+N("m-n-only-listcomp", MU_, "return self.of(*(m.only(*marker_names) for m in self.markers))", "return self.of(*[m.only(*marker_names) for m in self.markers])", props=["C12", "C15"])
+N("m-n-str-list", MU_, """        elements = []
+        for m in self.markers:
+            if isinstance(m, (MarkerExpression, MultiMarker)):
+                elements.append(str(m))
+            else:
+                elements.append(f"({m})")
+
+        return " and ".join(elements)""", """        return " and ".join(
+            str(m) if isinstance(m, (MarkerExpression, MultiMarker)) else "(" + str(m) + ")" for m in self.markers
+        )""", props=["C07"])
+N("m-n-exclude-helper", SG, """        if self.name == marker_name:
+            return AnyMarker()
+
+        return self""", """        return AnyMarker() if marker_name == self.name else self""", props=["C12"])
